@@ -1,6 +1,6 @@
 (* C19 correspondence: evaluate Impl and Spec on the cases the Go harness ran. *)
 From Coq Require Import NArith List Bool.
-From V Require Import Base.U64 Base.Outcome Base.Sha256 Math.MathModel.
+From V Require Import Base.U64 Base.Outcome Base.Sha256 Math.MathModel Math.Prysm.
 Import ListNotations.
 Local Open Scope N_scope.
 
@@ -30,8 +30,8 @@ Inductive mcase :=
 | CMerkle (leaf : bytes) (branch : list bytes) (depth index : N) (root : bytes) (go : gores bool)
 | CSha (msg : bytes) (go : bytes)
 | CXor (a b : bytes) (go : bytes)
-(* IntegerSquareRootPrysm: float64 estimate, NOT modelled (no Impl side); judged against the floor-sqrt Spec only *)
-| CIsqrtPrysm (n : N) (go : N).
+(* IntegerSquareRootPrysm: [est] = the float64 estimate as computed by the harness with the same Go expression (oracle) *)
+| CIsqrtPrysm (n est : N) (go : N).
 
 (* impl_ok: Go agrees with the implementation model. *)
 Definition impl_ok (c : mcase) : bool :=
@@ -52,7 +52,7 @@ Definition impl_ok (c : mcase) : bool :=
   | CMerkle leaf br d i root go => agree Bool.eqb (verify_merkle_branch sha256 sha_cat bytes_eqb leaf br d i root) go
   | CSha msg go => bytes_eqb (sha256 msg) go
   | CXor a b go => bytes_eqb (xor_bytes a b) go
-  | CIsqrtPrysm _ _ => true
+  | CIsqrtPrysm n est go => match prysm_go 16 est n with Ok r => r =? go | _ => false end
   end.
 
 Definition is_pow2_spec (n : N) : bool := (0 <? n) && (2 ^ N.log2 n =? n).
@@ -82,7 +82,7 @@ Definition spec_ok (c : mcase) : bool :=
       else true
   | CSha msg go => bytes_eqb (sha256 msg) go
   | CXor a b go => Nat.eqb (length go) (length a) && forallb (fun i => N.lxor (nth i a 0) (nth i b 0) =? nth i go 0) (seq 0 (length a))
-  | CIsqrtPrysm n go => (go * go <=? n) && (n <? (go + 1) * (go + 1))
+  | CIsqrtPrysm n _ go => (go * go <=? n) && (n <? (go + 1) * (go + 1))
   end.
 
 Fixpoint mism (i : N) (cs : list mcase) : list (N * N) :=
